@@ -91,7 +91,8 @@ def run_check(P, tier, replay=None):
     corr_ran = False
     header = P.COQ_HEADER() if callable(P.COQ_HEADER) else P.COQ_HEADER
     if build_ok:
-        terms = [P.coq_case(c, r) for c, r in zip(cases, results)]
+        terms = [None if core.HARNESS_EXC in r else P.coq_case(c, r)
+                 for c, r in zip(cases, results)]
         idx = [i for i, t in enumerate(terms) if t is not None]
         if idx:
             f, errors = core.run_case_files(pid, header, [terms[i] for i in idx],
@@ -104,7 +105,12 @@ def run_check(P, tier, replay=None):
     known = core.known_keys(pid)
     oracle_hits = []
     for i, (c, r) in enumerate(zip(cases, results)):
-        msg = P.oracle(c, r)
+        if core.HARNESS_EXC in r:
+            msg = ("the library raised outside every operation the check observes (while the "
+                   "case was being set up), which the model does not predict: "
+                   + r[core.HARNESS_EXC].strip().splitlines()[-1][:200])
+        else:
+            msg = P.oracle(c, r)
         if msg:
             oracle_hits.append((i, msg))
     extra = getattr(P, 'extra_checks', None)
@@ -120,7 +126,9 @@ def run_check(P, tier, replay=None):
         nonlocal violations
         case = cases[i] if i is not None else payload
         res = results[i] if i is not None else None
-        key = P.classify(case, res, msg) if hasattr(P, 'classify') else None
+        key = None
+        if hasattr(P, 'classify') and not (res is not None and core.HARNESS_EXC in res):
+            key = P.classify(case, res, msg)
         if key in known:
             if key not in seen_keys:
                 seen_keys.add(key)
@@ -196,6 +204,9 @@ def run_check(P, tier, replay=None):
     hist = collections.Counter()
     nontrivial = set()
     for c, r in zip(cases, results):
+        if core.HARNESS_EXC in r:
+            hist['raised-outside-observation'] += 1
+            continue
         for lab in P.labels(c, r):
             hist[lab] += 1
         k = P.nontrivial_key(c, r)
